@@ -461,9 +461,20 @@ def rule_rec_same(ctx):
         else:
             r.bad(Finding('R-rec-same', _f(fpf), 'create-args', 'the node is not created from (out, Fargs, Fkwargs, func) as used for the '
                                                                  'call: `%s` (rebound: %s)' % (norm(c), sorted(rebound)), fpf.file, c.lineno))
-    # args extracted from Fargs in order
-    loops = [st for st in fpf.node.body if isinstance(st, ast.For) and norm(st.iter) == 'Fargs']
-    if len(loops) == 1 and 'args.append(fa.x)' in norm(loops[0]) and 'args.append(fa)' in norm(loops[0]):
+    # args extracted from Fargs in order: for v in Fargs: L.append(v.x) | L.append(v); func(*L, ...)
+    loops = [st for st in fpf.node.body if isinstance(st, ast.For) and norm(st.iter) == 'Fargs' and isinstance(st.target, ast.Name)]
+    ok_extract = False
+    if len(loops) == 1:
+        v = loops[0].target.id
+        apps = [c for c in ast.walk(loops[0]) if isinstance(c, ast.Call) and isinstance(c.func, ast.Attribute) and c.func.attr == 'append'
+                and isinstance(c.func.value, ast.Name) and len(c.args) == 1]
+        lists = {c.func.value.id for c in apps}
+        got = {norm(c.args[0]) for c in apps}
+        calls = [c for c in walk_no_nested(fpf.node) if isinstance(c, ast.Call) and isinstance(c.func, ast.Name) and c.func.id == 'func']
+        starred = {norm(a.value) for c in calls for a in c.args if isinstance(a, ast.Starred)}
+        if len(lists) == 1 and got == {v + '.x', v} and lists <= starred:
+            ok_extract = True
+    if ok_extract:
         r.ok(construct='extract', sample='call arguments are Fargs with nodes replaced by their .x, in order')
     else:
         r.bad(Finding('R-rec-same', _f(fpf), 'extract', 'argument extraction loop over Fargs not in the recognised form', fpf.file, fpf.lineno))
@@ -504,10 +515,19 @@ def rule_rec_same(ctx):
             r.ok(construct='replay-kwargs', nontrivial=True, sample='replay passes the recorded keyword arguments')
         else:
             r.bad(Finding('R-rec-same', _f(cpf), 'replay-kwargs', 'replay call `%s` drops the recorded keyword arguments (node.kwargs)' % norm(c), cpf.file, c.lineno))
-    # independents populated from the caller's list in order
+    # independents populated from the caller's list in order: for i, v in enumerate(self.independentFunctionList): v.args[0].x = x_list[i]
     ind = [st for st in cpf.node.body if isinstance(st, ast.For) and 'independentFunctionList' in norm(st.iter)]
-    if len(ind) == 1 and 'f.args[0].x = x_list[nf]' in norm(ind[0]) and loops and ind[0].lineno < loops[0].lineno:
-        r.ok(construct='independents', sample='independents are set from x_list[nf] before the replay loop')
+    ok_ind = False
+    if len(ind) == 1 and isinstance(ind[0].iter, ast.Call) and norm(ind[0].iter.func) == 'enumerate' \
+            and norm(ind[0].iter.args[0]) == 'self.independentFunctionList' and isinstance(ind[0].target, ast.Tuple) \
+            and len(ind[0].target.elts) == 2 and all(isinstance(e, ast.Name) for e in ind[0].target.elts):
+        i, v = ind[0].target.elts[0].id, ind[0].target.elts[1].id
+        xl = cpf.value_params()[0] if cpf.value_params() else 'x_list'
+        want = '%s.args[0].x = %s[%s]' % (v, xl, i)
+        if any(isinstance(b, ast.Assign) and norm(b) == want for b in ind[0].body) and loops and ind[0].lineno < loops[0].lineno:
+            ok_ind = True
+    if ok_ind:
+        r.ok(construct='independents', sample='independents are set from the caller\'s list, position by position, before the replay loop')
     else:
         r.bad(Finding('R-rec-same', _f(cpf), 'independents', 'independent values are not populated from x_list in order before the replay loop', cpf.file, cpf.lineno))
     r.floor = 10
